@@ -468,7 +468,7 @@ def applyVerb (env : Env) (srcVar : String) (call : VerbCall) : Except Err (Tbl 
             let (u, _) ← resolveColArg env t c
             match t.cache.lookupUid u with
             | some n => pure n
-            | none => throw (.internal "KeyError uuid_to_name"))
+            | none => throw .value)      -- "cannot rename non-selected column" (repair of D90: was a raw KeyError)
       let nm := Cache.dictOf (keys.zip (m.map (·.2)))
       if nm.any (fun kv => (t.cache.lookupName kv.1).isNone) then throw .value
       let untouched := t.cache.columns.filter (fun n => !nm.any (·.1 == n))
